@@ -24,6 +24,8 @@ PROPS["C02"] = dict(
         "Zrnt.Proofs.C02.activation_prefix_eq",
         "Zrnt.Proofs.C02.activations_eq",
         "Zrnt.Proofs.C02.deneb_activation_limit_eq",
+        "Zrnt.Proofs.C02.flat_snapshot_sound",
+        "Zrnt.Proofs.C02.effectiveBalance_snapshot_eq",
     ],
     modes=[dict(name="c02", nontrivial=_nontrivial)],
     level="proof",
